@@ -69,6 +69,7 @@ func VxC18StateDiffLengthBackfill() {
 	cancelAt := vx.Choice("cancel-at", 9) // 0: never
 	var state []byte
 	done := false
+	prunedBetween := false
 	for run := 0; run < 3 && !done; run++ {
 		m := &Migrator{}
 		vx.Assert(m.Before(state) == nil, "before-accepts-own-intermediate-state")
@@ -101,6 +102,7 @@ func VxC18StateDiffLengthBackfill() {
 					oldest++
 				}
 				if more > 0 {
+					prunedBetween = true
 					vx.Cover("sched:prefix-pruned-between-the-runs")
 				}
 			}
@@ -118,6 +120,12 @@ func VxC18StateDiffLengthBackfill() {
 		}
 	}
 	if oldest == nblocks-1 {
-		vx.Cover("only-head-retained")
+		if prunedBetween {
+			// reached only on an interrupted first run: whether a native run is interrupted at the same
+			// point depends on the goroutine schedule
+			vx.Cover("sched:only-head-retained-after-pruning-between-the-runs")
+		} else {
+			vx.Cover("only-head-retained")
+		}
 	}
 }
